@@ -789,11 +789,11 @@ func decreased(a, b snap) string {
 }
 
 // register with a pedantic registry and gather concurrently; returns failures and the family names seen
-func exercise(col prometheus.Collector, goroutines, rounds int) (fails []string, names map[string]bool) {
+func exercise(col prometheus.Collector, goroutines, rounds int) (fails []string, names map[string]bool, reg *prometheus.Registry) {
 	names = map[string]bool{}
-	reg := prometheus.NewPedanticRegistry()
+	reg = prometheus.NewPedanticRegistry()
 	if err := reg.Register(col); err != nil {
-		return []string{"Register on a pedantic registry failed: " + err.Error()}, names
+		return []string{"Register on a pedantic registry failed: " + err.Error()}, names, reg
 	}
 	var mu sync.Mutex
 	var wg sync.WaitGroup
@@ -840,7 +840,7 @@ func exercise(col prometheus.Collector, goroutines, rounds int) (fails []string,
 	mfs, err := reg.Gather()
 	if err != nil {
 		fails = append(fails, "final Gather failed: "+err.Error())
-		return
+		return fails, names, reg
 	}
 	final, bad := takeSnap(mfs)
 	if bad != "" {
@@ -868,6 +868,63 @@ func exercise(col prometheus.Collector, goroutines, rounds int) (fails []string,
 	return
 }
 
+// bracket: an exposed exact cumulative runtime metric (uint64 counters, histogram totals) must lie between the
+// runtime's own value read just before and just after the gather: nothing lost, nothing invented.
+func bracket(reg *prometheus.Registry, all []metrics.Description, derived map[string]string) (fails []string) {
+	var ss []metrics.Sample
+	for _, d := range all {
+		if _, ok := derived[d.Name]; !ok {
+			continue
+		}
+		if (d.Kind == metrics.KindUint64 && d.Cumulative) || d.Kind == metrics.KindFloat64Histogram {
+			ss = append(ss, metrics.Sample{Name: d.Name})
+		}
+	}
+	read := func() map[string]float64 {
+		out := map[string]float64{}
+		metrics.Read(ss)
+		for _, s := range ss {
+			switch s.Value.Kind() {
+			case metrics.KindUint64:
+				out[derived[s.Name]] = float64(s.Value.Uint64())
+			case metrics.KindFloat64Histogram:
+				t := uint64(0)
+				for _, c := range s.Value.Float64Histogram().Counts {
+					t += c
+				}
+				out[derived[s.Name]] = float64(t)
+			}
+		}
+		return out
+	}
+	runtime.GC()
+	lo := read()
+	mfs, err := reg.Gather()
+	hi := read()
+	if err != nil {
+		return []string{"bracketing Gather failed: " + err.Error()}
+	}
+	for _, mf := range mfs {
+		l, ok := lo[mf.GetName()]
+		if !ok || len(mf.Metric) != 1 {
+			continue
+		}
+		var v float64
+		switch mf.GetType() {
+		case dto.MetricType_COUNTER:
+			v = mf.Metric[0].Counter.GetValue()
+		case dto.MetricType_HISTOGRAM:
+			v = float64(mf.Metric[0].Histogram.GetSampleCount())
+		default:
+			continue
+		}
+		if v < l || v > hi[mf.GetName()] {
+			fails = append(fails, fmt.Sprintf("%s = %v is outside what the runtime reported around the gather [%v, %v]", mf.GetName(), v, l, hi[mf.GetName()]))
+		}
+	}
+	return
+}
+
 func streamCollectors(c *cli.Ctx, r *emit.Rng) error {
 	w := emit.NewWriter(c.Out, "C18", "collectors")
 	w.Extra["no_model"] = true
@@ -889,7 +946,10 @@ func streamCollectors(c *cli.Ctx, r *emit.Rng) error {
 	for i := 0; i < n; i++ {
 		cb := genCombo(r, all, i)
 		col := newGo(cb)
-		fails, names := exercise(col, 4, 4)
+		fails, names, reg := exercise(col, 4, 4)
+		if len(fails) == 0 {
+			fails = append(fails, bracket(reg, all, derived)...)
+		}
 		for _, f := range fails {
 			fail(i, "Go collector ["+cb.what+"]: "+f)
 		}
@@ -943,7 +1003,7 @@ func streamCollectors(c *cli.Ctx, r *emit.Rng) error {
 			what = "namespace+report-errors"
 		}
 		col := collectors.NewProcessCollector(opts)
-		fails, names := exercise(col, 4, 4)
+		fails, names, _ := exercise(col, 4, 4)
 		for _, f := range fails {
 			if opts.ReportErrors && strings.Contains(f, "Gather failed") && !pedanticComplaint(f) {
 				continue // an unreadable /proc file reported on request; not a consistency failure
